@@ -134,7 +134,9 @@ InitPoints == /\ vKind = "points" /\ "points" \in Kinds /\ vCurve \in CurveSet /
 InitScan   == /\ vKind = "scan" /\ "scan" \in Kinds /\ vCurve \in CurveSet /\ vOrd \in Ords /\ vVal \in BOOLEAN
               /\ vSel \in { i \in 1..Len(ScanTab[vCurve.name][vOrd]) :
                               LET d == ScanTab[vCurve.name][vOrd][i] IN        \* validation off: raw forms are unspecified, only narrow / compressed scans
-                              vVal \/ d.nvar = 1 \/ (Len(d.fixed) > 0 /\ d.fixed[1] \in { 2, 3 } /\ ~d.sep) }
+                              \/ vVal
+                              \/ (Len(d.fixed) > 0 /\ d.fixed[1] \in { 2, 3 } /\ ~d.sep)
+                              \/ (d.nvar = 1 /\ (Len(d.fixed) # 1 \/ d.fixed[1] \in ScanPrefixes)) }
               /\ vOut = ScanRow(vCurve, vOrd, vVal, ScanTab[vCurve.name][vOrd][vSel])
 InitKeyGen == /\ vKind = "keygen" /\ "keygen" \in Kinds /\ vCurve \in CurveSet /\ vOrd \in Ords /\ vVal = TRUE /\ vSel = 0
               /\ vOut = KeyGenRow(vCurve, vOrd)
